@@ -326,7 +326,7 @@ pub fn run(rep: &mut Report) {
     });
     rep.absorb("single gates", &format!("every gate kind of the property's list x every ordered tuple of distinct qubits on 1..{} qubits x every reduced phase k/d with d <= {} (rz, rx); zero-gate circuits on 1..3 qubits", qmax, dmax), true, None, t0, stats);
     // sequences
-    for (q, d) in if quick { vec![(2usize, 3usize), (3, 2)] } else { vec![(2, 4), (3, 3), (4, 2)] } {
+    for (q, d) in if quick { vec![(2usize, 3usize), (3, 2), (3, 3)] } else { vec![(2, 4), (3, 3), (4, 2), (2, 5), (3, 4)] } {
         let t0 = Instant::now();
         let mut alpha: Vec<Gate> = alpha_full(q).into_iter().filter(|g| g.t != ParityPhase).collect();
         alpha.push(gp(ZPhase, vec![0], (5, 16)));
